@@ -111,7 +111,7 @@ func genSnap(r *Rng, tier string, idx int, prop string) *Plan {
 			// everything is deleted: the next snapshot is that of an empty keyspace
 			p.Ops = append(p.Ops, Op{C: r.Intn(2), Args: []string{"FLUSHALL"}})
 		}
-		if prop == "C10" && sidx > 0 && r.Chance(0.3) {
+		if sidx > 0 && r.Chance(map[string]float64{"C10": 0.3, "C03": 0.15}[prop]) {
 			p.Ops = append(p.Ops, Op{Kind: "stepback", N: int64(Pick(r, []int{1, 7, 500, 3000, 100000, 10000000}))})
 		}
 		if prop == "C10" && r.Chance(0.6) {
